@@ -54,8 +54,8 @@ def run(ctx):
     ctx.trusted += ["rustc nightly MIR dump (-Zunpretty=mir) as the semantics of the compiled functions",
                     "z3 (every 25th query of each template re-decided by cvc5)",
                     "mirsym interpreter (lib/sym.py); validated against the real functions on boundary values (R)"]
-    ctx.assumptions += ["bit-masks: acceptance is decided by the bitflags crate's from_bits; its result is checked by the Kani harness c08_masks, "
-                        "and the declared constants are read from the bitflags! source tokens"]
+    ctx.assumptions += ["bit-masks: acceptance (bitflags' from_bits) is decided on the compiled code by one Kani harness per mask type against the union of the "
+                        "declared constants read from the bitflags! source tokens"]
     ctx.bounds.append("from_u32 / from_str / Debug: none (all 2^32 numbers, all strings, all declared discriminants)")
     order = sorted(enums.items(), key=lambda kv: kv[1]["line"])
     lines = [d["line"] for _, d in order] + [10 ** 9]
@@ -266,7 +266,43 @@ def run(ctx):
                             ctx.ob("%s/from_str/declared-accepted" % name, None, "model %r does not reproduce" % w)
                     else:
                         ctx.ob("%s/from_str/declared-accepted" % name, st == "unsat" or None)
+    # ---------------- agreement with the pinned grammar (stand-in for the Khronos JSON): numbers, names, aliases, mask constants
+    snap = json.load(open(os.path.join(VERIF, "reference", "snapshot.json")))["spirv"]
+    for name in sorted(set(enums) | set(snap["enums"])):
+        cur, old = enums.get(name), snap["enums"].get(name)
+        if cur is None or old is None:
+            ctx.ob("snapshot/enum/%s" % name, False, "enum %s" % ("missing" if cur is None else "not in the pinned grammar"))
+            ctx.violation("snapshot/enum-presence/%s" % name, "enumeration %s %s" % (name, "is missing" if cur is None else "is not in the pinned grammar"), None)
+            continue
+        a = {n: v for n, v in cur["variants"]}
+        b = {n: v for n, v in old["variants"]}
+        al_a = {x: a.get(y) for x, y in cur["aliases"]}
+        al_b = {x: b.get(y) for x, y in old["aliases"]}
+        diffs = [(n, a.get(n), b.get(n)) for n in sorted(set(a) | set(b)) if a.get(n) != b.get(n)]
+        diffs += [("alias " + n, al_a.get(n), al_b.get(n)) for n in sorted(set(al_a) | set(al_b)) if al_a.get(n) != al_b.get(n)]
+        ctx.ob("snapshot/enum/%s" % name, not diffs, str(diffs[:4]) if diffs else None)
+        for n, x, y in diffs[:6]:
+            probe = x if isinstance(x, int) else (y if isinstance(y, int) else 0)
+            real = rp.ask("from_u32 %s %d" % (name, probe))
+            ctx.violation("snapshot/enum/%s/%s" % (name, n.replace(" ", "-")), "%s::%s = %s here, %s in the pinned grammar" % (name, n, x, y),
+                          {"cmd": "from_u32 %s %d" % (name, probe), "real": real})
+    for name in sorted(set(masks) | set(snap["masks"])):
+        a = dict(masks[name]["consts"]) if name in masks else {}
+        b = dict(snap["masks"].get(name, []))
+        diffs = [(n, a.get(n), b.get(n)) for n in sorted(set(a) | set(b)) if a.get(n) != b.get(n)]
+        ctx.ob("snapshot/mask/%s" % name, not diffs, str(diffs[:4]) if diffs else None)
+        for n, x, y in diffs[:6]:
+            real = rp.ask("from_bits %s %d" % (name, x if isinstance(x, int) else (y or 0)))
+            ctx.violation("snapshot/mask/%s/%s" % (name, n), "%s::%s = %s here, %s in the pinned grammar" % (name, n, x, y),
+                          {"cmd": "from_bits %s %d" % (name, x if isinstance(x, int) else (y or 0)), "real": real})
     rp.close()
+    # ---------------- masks: from_bits accepts n iff all set bits are declared (compiled code, CBMC over all 2^32 numbers)
+    import kani
+    hs = ["gen::proofs::k_mask_%s" % m for m in sorted(masks)]
+    res = kani.run_many(hs, cap_s=300, workers=6)
+    kani.settle(ctx, res, lambda h: "mask_" + h.split("k_mask_")[1])
+    ctx.functions.update("spirv::%s::from_bits" % m for m in masks)
+    ctx.bounds.append("masks: all 2^32 numbers for each of the %d bitflags types (Kani/CBMC)" % len(masks))
     ctx.extra["enums"] = len(enums)
     ctx.extra["range_arms"] = sum(len(d["ranges"] or []) for d in enums.values())
     ctx.extra["masks"] = len(masks)
